@@ -12,6 +12,12 @@ import (
 
 // ExecLocal exec local
 func (c *Coins) ExecLocal(tx *types.Transaction, receipt *types.ReceiptData, index int) (dbSet *types.LocalDBSet, err error) {
+	// a transfer that failed (ExecPack) moved nothing: like DriverBase.callLocal, which the removal
+	// (ExecDelLocal) goes through, do not touch the local "received" totals for it; otherwise the
+	// amount is credited when the block is added and never debited when it is removed
+	if c.CheckReceiptExecOk() && receipt.GetTy() != types.ExecOk {
+		return &types.LocalDBSet{}, nil
+	}
 	dbSet, err = c.execLocal(tx, receipt, index)
 	if err != nil || dbSet == nil { // 不能向上层返回LocalDBSet为nil, 以及error
 		return &types.LocalDBSet{}, nil
